@@ -156,11 +156,25 @@ def _run_one(exe, lines, tmp, env_extra=None, timeout=3000):
     return [outs.get(i, 'NOOUTPUT') for i in range(len(lines))], p.stderr.decode(errors='replace')
 
 
+MODEL_TAGS = {}
+def _strip_tags(outs):
+    """a model driver may end a result with ' @tag' tokens (coverage information such as 'this case falls under theorem T');
+    they are counted into MODEL_TAGS (-> evidence) and removed before any comparison"""
+    res = []
+    for o in outs:
+        while o:
+            m = re.search(r' @(\S+)$', o)
+            if not m: break
+            MODEL_TAGS[m.group(1)] = MODEL_TAGS.get(m.group(1), 0) + 1; o = o[:m.start()]
+        res.append(o)
+    return res
+
 def run_driver(exe, lines, tmp, env_extra=None, timeout=3000, shards=None):
     """runs the case lines through a driver; large case files are split over the cores (cases are independent)"""
     n = len(lines)
     if shards is None: shards = 1 if n < 600 else min(14, (n + 299) // 300)
-    if shards <= 1: return _run_one(exe, lines, tmp, env_extra, timeout)
+    if shards <= 1:
+        o, e = _run_one(exe, lines, tmp, env_extra, timeout); return _strip_tags(o), e
     from concurrent.futures import ThreadPoolExecutor
     size = (n + shards - 1) // shards
     chunks = [lines[i:i + size] for i in range(0, n, size)]
@@ -168,7 +182,7 @@ def run_driver(exe, lines, tmp, env_extra=None, timeout=3000, shards=None):
         res = list(ex.map(lambda ch: _run_one(exe, ch, tmp, env_extra, timeout), chunks))
     outs = []; errs = ''
     for o, e in res: outs += o; errs += e
-    return outs, errs
+    return _strip_tags(outs), errs
 
 
 def sanitizer_logs(tmp):
@@ -344,6 +358,7 @@ def main():
             'timing': log,
         }
         cov.update(extra.get('coverage', {}))
+        if MODEL_TAGS: cov['cases_by_theorem_hypothesis'] = dict(MODEL_TAGS)   # reported by the extracted model (e.g. accepted_rules of C06_history_extracted)
         ev = {'property_id': pid, 'tier': tier if tier in ('quick', 'thorough') else 'quick', 'seed': seed, 'level': 'proof', 'coverage': cov,
               'assumptions': mod.ASSUMPTIONS, 'wall_s': round(time.time() - t_start, 2), 'violations': len(violations)}
         # a replay re-runs recorded cases only: it must not replace the evidence of the property's check
